@@ -20,6 +20,134 @@ pub enum Scenario {
     Prep(PrepSpec),
     Shared(SharedSpec),
     Word(WordSpec),
+    Mix(MixSpec),
+}
+
+/// MIX: harness threads run op lists drawn from the whole C12 inventory (core, hal, ckks, bin-fhe ops)
+/// concurrently on the one Module the inventory shares per ring degree; every op's output must equal
+/// what the same list yields when the lists run one after the other without scheduler.
+#[derive(Clone, Debug)]
+pub struct MixSpec {
+    pub n: u32,
+    pub threads: usize,
+    pub ops_seed: u64,
+    pub ops_per_thread: usize,
+    pub thorough: bool,
+}
+
+impl MixSpec {
+    pub fn to_json(&self) -> Value {
+        json!({"n": self.n, "threads": self.threads, "ops_seed": self.ops_seed, "ops_per_thread": self.ops_per_thread, "thorough": self.thorough})
+    }
+    pub fn from_json(v: &Value) -> MixSpec {
+        MixSpec {
+            n: v["n"].as_u64().unwrap() as u32,
+            threads: v["threads"].as_u64().unwrap() as usize,
+            ops_seed: v["ops_seed"].as_u64().unwrap(),
+            ops_per_thread: v["ops_per_thread"].as_u64().unwrap() as usize,
+            thorough: v["thorough"].as_bool().unwrap_or(false),
+        }
+    }
+    /// op lists are a function of (ops_seed, thread index, position) only, so shrinking the thread
+    /// count or the list length keeps the remaining entries
+    pub fn lists(&self, backend_name: &str) -> Vec<Vec<(&'static str, crate::c12::ops::Shape, u64)>> {
+        let all = backend(backend_name).core_ops();
+        let mut ops: Vec<&'static str> = Vec::new();
+        for o in all {
+            let heavy = o.starts_with("word_") || o.starts_with("circuit_bootstrapping");
+            for _ in 0..(if heavy { 1 } else { 4 }) {
+                ops.push(o);
+            }
+        }
+        (0..self.threads)
+            .map(|t| {
+                (0..self.ops_per_thread)
+                    .map(|i| {
+                        let mut r = Rng::new(mix(mix(self.ops_seed, 0x317, t as u64), 0x318, i as u64));
+                        let op = *r.pick(&ops);
+                        let mut shape = crate::c12::random_shape(&mut r, self.thorough);
+                        shape.n = self.n;
+                        (op, shape, r.next() | 1)
+                    })
+                    .collect()
+            })
+            .collect()
+    }
+}
+
+const MIX_ERR: u64 = 0xE44;
+
+fn mix_one(b: &dyn crate::fhe::BackendOps, op: &str, shape: &crate::c12::ops::Shape, fill: u64) -> u64 {
+    let w = Window {
+        mode: WindowMode::Generous,
+        fill_seed: fill,
+    };
+    match crate::util::catch(|| b.core_op(op, shape, &w)) {
+        Ok((Ok(o), _)) if o.canary_ok => o.outs.iter().fold(1u64, |a, x| fnv_mix(a, fnv(x))),
+        Ok((Ok(_), _)) => 0xCA9A,
+        // inadmissible shape (the op's own asserts) or a panic: must be the same under every schedule
+        _ => MIX_ERR,
+    }
+}
+
+fn run_mix(r: &Run, spec: &MixSpec, cfg: Option<Config>) -> (Result<RunOut, String>, Option<Report>) {
+    let b = backend(&r.backend);
+    let lists = spec.lists(&r.backend);
+    let mut results: Vec<Vec<u64>> = vec![Vec::new(); spec.threads];
+    let (res, rep) = match cfg {
+        None => {
+            // reference: the lists one after the other on this thread; zero-filled windows
+            for (t, l) in lists.iter().enumerate() {
+                for (op, shape, _) in l {
+                    results[t].push(mix_one(b, op, shape, 0));
+                }
+            }
+            (Ok(()), None)
+        }
+        Some(cfg) => {
+            crate::sched::HARNESS_TOP_LEVEL.store(true, std::sync::atomic::Ordering::Relaxed);
+            let lists = &lists;
+            let results_ref = &mut results;
+            let (res, rep) = crate::sched::run(cfg, move || {
+                std::thread::scope(|scope| {
+                    for (t, slot) in results_ref.iter_mut().enumerate() {
+                        let tok = crate::sched::spawn_prepare();
+                        scope.spawn(move || {
+                            crate::sched::thread_begin(tok);
+                            struct G;
+                            impl Drop for G {
+                                fn drop(&mut self) {
+                                    crate::sched::thread_end();
+                                }
+                            }
+                            let _g = G;
+                            crate::sched::yield_point(crate::sched::SITE_HARNESS, t, t);
+                            for (op, shape, fill) in &lists[t] {
+                                slot.push(mix_one(b, op, shape, *fill));
+                            }
+                        });
+                        crate::sched::after_spawn(tok);
+                    }
+                    crate::sched::join_begin();
+                });
+            });
+            crate::sched::HARNESS_TOP_LEVEL.store(false, std::sync::atomic::Ordering::Relaxed);
+            (res, Some(rep))
+        }
+    };
+    (
+        res.map(|_| RunOut {
+            outs: results.iter().map(|l| l.iter().flat_map(|h| h.to_le_bytes()).collect()).collect(),
+            declared: 0,
+            per_thread: 0,
+            window_len: 0,
+            canary_ok: true,
+            inputs_unchanged: true,
+            module_fingerprint_same: true,
+            items: spec.threads,
+        }),
+        rep,
+    )
 }
 
 #[derive(Clone, Debug)]
@@ -61,6 +189,7 @@ impl Run {
             Scenario::Prep(p) => ("prep", p.to_json()),
             Scenario::Shared(p) => ("shared", p.to_json()),
             Scenario::Word(p) => ("word", p.to_json()),
+            Scenario::Mix(p) => ("mix", p.to_json()),
         };
         json!({"engine":"A","backend": self.backend, "scenario": k, "spec": s, "strategy": strategy_json(&self.strategy),
                "sched_seed": self.sched_seed, "fill_seed": self.fill_seed})
@@ -73,6 +202,7 @@ impl Run {
                 "eval" => Scenario::Eval(EvalSpec::from_json(spec)),
                 "prep" => Scenario::Prep(PrepSpec::from_json(spec)),
                 "word" => Scenario::Word(WordSpec::from_json(spec)),
+                "mix" => Scenario::Mix(MixSpec::from_json(spec)),
                 _ => Scenario::Shared(SharedSpec::from_json(spec)),
             },
             strategy: strategy_from(&v["strategy"]),
@@ -158,6 +288,14 @@ pub fn generate(seed: u64, idx: u64, thorough: bool) -> Run {
             a: rng.next() as u32,
             b: rng.next() as u32,
         })
+    } else if kind < 92 {
+        Scenario::Mix(MixSpec {
+            n: *rng.pick(ns),
+            threads: rng.range(2, 4) as usize,
+            ops_seed: rng.next(),
+            ops_per_thread: rng.range(1, 4) as usize,
+            thorough,
+        })
     } else {
         Scenario::Shared(SharedSpec {
             n: *rng.pick(ns),
@@ -181,6 +319,8 @@ pub struct Outcome {
     pub violation: Option<(String, String, String)>, // oracle, class, detail
     pub report: Option<Report>,
     pub hash: u64,
+    /// MIX: (ops run, ops that were inadmissible or failed alike in both runs)
+    pub mix_ops: (u64, u64),
 }
 
 fn run_scenario(r: &Run, w: &Window, cfg: Option<Config>) -> (Result<RunOut, String>, Option<Report>) {
@@ -190,6 +330,7 @@ fn run_scenario(r: &Run, w: &Window, cfg: Option<Config>) -> (Result<RunOut, Str
         Scenario::Prep(s) => b.prep(s, w, cfg),
         Scenario::Shared(s) => b.shared(s, cfg),
         Scenario::Word(s) => b.word(s, w, cfg),
+        Scenario::Mix(s) => run_mix(r, s, cfg),
     }
 }
 
@@ -200,7 +341,7 @@ fn reference(r: &Run) -> Result<RunOut, String> {
         Scenario::Eval(s) => s.threads = 1,
         Scenario::Prep(s) => s.threads = 1,
         Scenario::Word(s) => s.threads = 1,
-        Scenario::Shared(_) => {}
+        Scenario::Shared(_) | Scenario::Mix(_) => {}
     }
     let w = Window {
         mode: WindowMode::Generous,
@@ -229,6 +370,17 @@ pub fn execute(r: &Run) -> Result<Outcome, String> {
     let rep = rep.unwrap();
     let mut hash = rep.log_hash;
     let mut v: Option<(String, String, String)> = None;
+    let mut mix_ops = (0u64, 0u64);
+    if let (Scenario::Mix(_), Ok(out)) = (&r.scenario, &res) {
+        for o in &out.outs {
+            for w in o.chunks(8) {
+                mix_ops.0 += 1;
+                if u64::from_le_bytes(w.try_into().unwrap()) == MIX_ERR {
+                    mix_ops.1 += 1;
+                }
+            }
+        }
+    }
     if rep.stuck {
         v = Some(("PROGRESS".into(), "step_budget_exceeded".into(), format!("scope did not finish within {budget} scheduling steps")));
     }
@@ -250,12 +402,13 @@ pub fn execute(r: &Run) -> Result<Outcome, String> {
                 let site = match &r.scenario {
                     Scenario::Eval(_) | Scenario::Word(_) => poulpy_hal::verif::SITE_BDD_ITEM,
                     Scenario::Prep(_) => poulpy_hal::verif::SITE_PREPARE_ITEM,
-                    Scenario::Shared(_) => crate::sched::SITE_HARNESS,
+                    Scenario::Shared(_) | Scenario::Mix(_) => crate::sched::SITE_HARNESS,
                 };
                 let (lo, cnt) = match &r.scenario {
                     Scenario::Eval(s) => (0, s.outputs),
                     Scenario::Prep(s) => (s.bit_start, s.bit_count),
                     Scenario::Shared(s) => (0, s.threads),
+                    Scenario::Mix(s) => (0, s.threads),
                     Scenario::Word(_) => (0, 32),
                 };
                 // nested scopes (SHARED op 3) add their own items on other sites; only top-level items are counted here
@@ -265,7 +418,7 @@ pub fn execute(r: &Run) -> Result<Outcome, String> {
                     if *s != site {
                         continue;
                     }
-                    if matches!(r.scenario, Scenario::Shared(_)) && *s != crate::sched::SITE_HARNESS {
+                    if matches!(r.scenario, Scenario::Shared(_) | Scenario::Mix(_)) && *s != crate::sched::SITE_HARNESS {
                         continue;
                     }
                     if *a < lo || *a >= lo + cnt {
@@ -287,7 +440,7 @@ pub fn execute(r: &Run) -> Result<Outcome, String> {
                             break;
                         }
                     }
-                } else if bad.is_none() && !matches!(r.scenario, Scenario::Shared(_)) {
+                } else if bad.is_none() && !matches!(r.scenario, Scenario::Shared(_) | Scenario::Mix(_)) {
                     for (i, c) in seen.iter().enumerate() {
                         if *c != 1 {
                             bad = Some(format!("work item {} executed {c} times", lo + i));
@@ -305,6 +458,23 @@ pub fn execute(r: &Run) -> Result<Outcome, String> {
                     v = Some(("EQ".into(), "output_count".into(), "number of outputs differs from the reference".into()));
                 } else {
                     for (i, (a, b)) in out.outs.iter().zip(reference.outs.iter()).enumerate() {
+                        if a != b && let Scenario::Mix(spec) = &r.scenario {
+                            let at = a.iter().zip(b.iter()).position(|(x, y)| x != y).unwrap_or(0) / 8;
+                            let (op, shape, _) = &spec.lists(&r.backend)[i][at];
+                            let word = |x: &Vec<u8>| u64::from_le_bytes(x[at * 8..at * 8 + 8].try_into().unwrap());
+                            let what = match (word(a), word(b)) {
+                                (MIX_ERR, _) => "failed under the scheduler but not alone",
+                                (_, MIX_ERR) => "succeeded under the scheduler but fails alone",
+                                (0xCA9A, _) => "wrote outside its scratch window",
+                                _ => "produced different bytes than alone",
+                            };
+                            v = Some((
+                                "EQ".into(),
+                                "mix_op_differs".into(),
+                                format!("thread {i}, op {at} ({op}, shape {}) {what}, while other threads ran ops on the same Module", shape.to_json()),
+                            ));
+                            break;
+                        }
                         if a != b {
                             let at = a.iter().zip(b.iter()).position(|(x, y)| x != y).unwrap_or(0);
                             v = Some((
@@ -333,6 +503,7 @@ pub fn execute(r: &Run) -> Result<Outcome, String> {
         violation: v,
         report: Some(rep),
         hash,
+        mix_ops,
     })
 }
 
@@ -345,7 +516,33 @@ fn minimise(r: &Run, rep: &Report, want: &(String, String, String)) -> Run {
         execute(c).ok().and_then(|o| o.violation).is_some_and(|v| v.0 == want.0 && v.1 == want.1)
     };
     if !still(&cur) {
-        return r.clone();
+        // MIX: the workload shrinks under the original strategy (a recorded schedule does not fit a smaller workload)
+        let mut c = r.clone();
+        if let Scenario::Mix(_) = &c.scenario {
+            loop {
+                let mut progress = false;
+                for which in 0..2 {
+                    let mut t = c.clone();
+                    if let Scenario::Mix(m) = &mut t.scenario {
+                        if which == 0 && m.ops_per_thread > 1 {
+                            m.ops_per_thread -= 1;
+                        } else if which == 1 && m.threads > 2 {
+                            m.threads -= 1;
+                        } else {
+                            continue;
+                        }
+                    }
+                    if still(&t) {
+                        c = t;
+                        progress = true;
+                    }
+                }
+                if !progress {
+                    break;
+                }
+            }
+        }
+        return c;
     }
     // serial first
     let mut c = cur.clone();
@@ -423,15 +620,18 @@ impl CheckImpl for C20 {
                 Scenario::Prep(s) => ("prep", s.threads, s.bit_count),
                 Scenario::Shared(s) => ("shared", s.threads, s.threads),
                 Scenario::Word(s) => ("word", s.threads, 32),
+                Scenario::Mix(s) => ("mix", s.threads, s.threads),
             };
             acc.bump(&format!("scenario.{sc}"));
+            acc.add("mix.ops_run_concurrently", o.mix_ops.0);
+            acc.add("mix.ops_inadmissible_in_both_runs", o.mix_ops.1);
             if requested > items {
                 acc.bump("probe.threads_exceed_items");
             }
             if items % requested.max(1) != 0 {
                 acc.bump("probe.threads_do_not_divide_items");
             }
-            if rep.threads.saturating_sub(1) < requested && sc != "shared" {
+            if rep.threads.saturating_sub(1) < requested && sc != "shared" && sc != "mix" {
                 acc.bump("probe.worker_count_below_requested");
             }
             acc.set_insert("schedule_signatures", fnv_mix(rep.schedule_sig, fnv(format!("{sc}{}", r.backend).as_bytes())));
